@@ -547,9 +547,18 @@ theorem parseFrac_some (e : Env) {v : Str} {i : Nat} {ds r : Str} (hd : AllD ds)
     unfold ljust; simp [hne]
   have hval : dval (ljust ds 9 '0') = dval ds * 10 ^ (9 - ds.length) := by
     unfold ljust; exact dval_append_replicate0 _ _
+  -- the character after the point is a digit
+  obtain ⟨d0, dt, rfl⟩ : ∃ d0 dt, ds = d0 :: dt := by
+    cases ds with
+    | nil => exact absurd rfl hne
+    | cons a t => exact ⟨a, t, rfl⟩
+  have hd0 : e.isDigit d0 = true := isDigit_of_digit e ((AllD_cons.1 hd).1)
+  have hg1 : v[i + 1]? = some d0 := Sfx.get (r := dt ++ r) h1
+  have hlt1 : i + 1 < v.length := Sfx.lt (r := dt ++ r) h1
   unfold parseFractionalSecond PS.hasMore PS.peek
   simp only [h.get]
-  simp only [h.lt, decide_true, Bool.true_and, beq_self_eq_true, if_true]
+  simp only [h.lt, decide_true, Bool.true_and, beq_self_eq_true, if_true, hg1, hlt1, Option.map_some,
+    Option.getD_some, hd0, Bool.not_true, Bool.false_eq_true, if_false]
   unfold parseFixedDigits
   simp only []
   rw [hscan, h1.slice, parseInt_digits e _ hall hne', hval]; rfl
@@ -638,7 +647,7 @@ theorem parseOffset_Z (e : Env) {v : Str} {i : Nat} (h : Sfx v i ['Z']) :
   simp [h.lt, hd]
 
 theorem parseOffset_signed (e : Env) {v : Str} {i hh mm : Nat} (c : Char) (hc : c = '-' ∨ c = '+')
-    (hhh : hh < 100) (hmm : mm ≤ 59)
+    (hhh : hh < 100) (hmm : mm ≤ 59) (hrange : hh * 60 + mm ≤ 840)
     (h : Sfx v i (c :: (zpad hh 2 ++ ':' :: (zpad mm 2 ++ [])))) :
     parseOffset e ⟨v, i⟩ =
       some (some (if c = '-' then ((hh : Int) * 60 + mm) * (-1) else ((hh : Int) * 60 + mm) * 1),
@@ -656,13 +665,14 @@ theorem parseOffset_signed (e : Env) {v : Str} {i hh mm : Nat} (c : Char) (hc : 
   have hcc : (decide (c = '-') || decide (c = '+')) = true := by
     rcases hc with rfl | rfl <;> decide
   have hle : ¬ ((mm : Int) > 59) := by omega
-  simp only [hcc, if_true, parseDigits_ok e hhh h1, skip_ok h2, parseDigits_ok e hmm' h3, hle, if_false]
+  have hle2 : ¬ ((hh : Int) * 60 + (mm : Int) > 840) := by omega
+  simp only [hcc, if_true, parseDigits_ok e hhh h1, skip_ok h2, parseDigits_ok e hmm' h3, hle, hle2, if_false]
   rw [← hd]
 
 /-- `parse_offset` inverts `format_offset` (for offsets below 100 hours) and
 consumes the rest of the input -/
 theorem parseOffset_format (e : Env) {v : Str} {i : Nat} (o : Option Int)
-    (ho : ∀ x, o = some x → -6000 < x ∧ x < 6000) (h : Sfx v i (formatOffset o)) :
+    (ho : ∀ x, o = some x → -840 ≤ x ∧ x ≤ 840) (h : Sfx v i (formatOffset o)) :
     parseOffset e ⟨v, i⟩ = some (o, ⟨v, v.length⟩) := by
   cases o with
   | none => exact parseOffset_none e h
@@ -674,14 +684,14 @@ theorem parseOffset_format (e : Env) {v : Str} {i : Nat} (o : Option Int)
       · have hxn : x = -((x.natAbs : Nat) : Int) := by omega
         have hn0 : x.natAbs ≠ 0 := by omega
         rw [hxn, formatOffset_neg _ hn0] at h
-        rw [parseOffset_signed e (hh := x.natAbs / 60) (mm := x.natAbs % 60) '-' (Or.inl rfl) (by omega) (by omega) (by simpa using h)]
+        rw [parseOffset_signed e (hh := x.natAbs / 60) (mm := x.natAbs % 60) '-' (Or.inl rfl) (by omega) (by omega) (by omega) (by simpa using h)]
         simp only [if_true]
         congr 3
         omega
       · have hxn : x = ((x.natAbs : Nat) : Int) := by omega
         have hn0 : x.natAbs ≠ 0 := by omega
         rw [hxn, formatOffset_pos _ hn0] at h
-        rw [parseOffset_signed e (hh := x.natAbs / 60) (mm := x.natAbs % 60) '+' (Or.inr rfl) (by omega) (by omega) (by simpa using h)]
+        rw [parseOffset_signed e (hh := x.natAbs / 60) (mm := x.natAbs % 60) '+' (Or.inr rfl) (by omega) (by omega) (by omega) (by simpa using h)]
         have : ('+' : Char) ≠ '-' := by decide
         simp only [this, if_false]
         congr 3
@@ -753,7 +763,7 @@ theorem parseVar_z (e : Env) (p : PS) :
 
 theorem parseLoop_time (e : Env) {v : Str} {i : Nat} (H M S F : Nat) (o : Option Int)
     (hH : H < 100) (hM : M < 100) (hS : S < 100) (hF : F ≤ 999999999)
-    (ho : ∀ x, o = some x → -6000 < x ∧ x < 6000)
+    (ho : ∀ x, o = some x → -840 ≤ x ∧ x ≤ 840)
     (h : Sfx v i (formatTime H M S F ++ formatOffset o)) :
     parseLoop e Tables.fmtTime ⟨v, i⟩ =
       some [some (H : Int), some (M : Int), some (S : Int), some (F : Int), o] := by
@@ -825,7 +835,7 @@ theorem parseLoop_datePart (e : Env) {v : Str} {i : Nat} (restFmt : Str) (year :
   cases parseLoop e restFmt ⟨v, _⟩ <;> simp
 
 theorem parseLoop_date (e : Env) {v : Str} {i : Nat} (year : Int) (m d : Nat) (o : Option Int)
-    (hm : m < 100) (hd : d < 100) (ho : ∀ x, o = some x → -6000 < x ∧ x < 6000)
+    (hm : m < 100) (hd : d < 100) (ho : ∀ x, o = some x → -840 ≤ x ∧ x ≤ 840)
     (h : Sfx v i (formatDate year m d ++ formatOffset o)) :
     parseLoop e Tables.fmtDate ⟨v, i⟩ = some [some year, some (m : Int), some (d : Int), o] := by
   obtain ⟨j, hj, hp⟩ := parseLoop_datePart e ['%', 'z'] year m d _ hm hd h
@@ -836,7 +846,7 @@ theorem parseLoop_date (e : Env) {v : Str} {i : Nat} (year : Int) (m d : Nat) (o
 theorem parseLoop_dateTime (e : Env) {v : Str} {i : Nat} (year : Int) (m d H M S F : Nat)
     (o : Option Int) (hm : m < 100) (hd : d < 100)
     (hH : H < 100) (hM : M < 100) (hS : S < 100) (hF : F ≤ 999999999)
-    (ho : ∀ x, o = some x → -6000 < x ∧ x < 6000)
+    (ho : ∀ x, o = some x → -840 ≤ x ∧ x ≤ 840)
     (h : Sfx v i (formatDate year m d ++ ['T'] ++ formatTime H M S F ++ formatOffset o)) :
     parseLoop e Tables.fmtDateTime ⟨v, i⟩ =
       some [some year, some (m : Int), some (d : Int),
@@ -917,7 +927,7 @@ theorem noSpace_formatDate (e : Env) (year : Int) (m d : Nat) : NoSpace e (forma
 
 theorem time_roundtrip_nat (e : Env) (H M S F : Nat) (o : Option Int)
     (hH : H < 100) (hM : M < 100) (hS : S < 100) (hF : F ≤ 999999999)
-    (ho : ∀ x, o = some x → -6000 < x ∧ x < 6000)
+    (ho : ∀ x, o = some x → -840 ≤ x ∧ x ≤ 840)
     (hv : validateTime H M S F = true) :
     XmlTime.fromString e (XmlTime.str ⟨H, M, S, F, o⟩) = some ⟨H, M, S, F, o⟩ := by
   unfold XmlTime.fromString XmlTime.str parseDateArgs
@@ -928,7 +938,7 @@ theorem time_roundtrip_nat (e : Env) (H M S F : Nat) (o : Option Int)
 
 theorem date_roundtrip_nat (e : Env) (year : Int) (m d : Nat) (o : Option Int)
     (hm : m < 100) (hd : d < 100)
-    (ho : ∀ x, o = some x → -6000 < x ∧ x < 6000)
+    (ho : ∀ x, o = some x → -840 ≤ x ∧ x ≤ 840)
     (hv : validateDate year m d = true) :
     XmlDate.fromString e (XmlDate.str ⟨year, m, d, o⟩) = some ⟨year, m, d, o⟩ := by
   unfold XmlDate.fromString XmlDate.str parseDateArgs
@@ -940,7 +950,7 @@ theorem date_roundtrip_nat (e : Env) (year : Int) (m d : Nat) (o : Option Int)
 theorem dateTime_roundtrip_nat (e : Env) (year : Int) (m d H M S F : Nat) (o : Option Int)
     (hm : m < 100) (hd : d < 100)
     (hH : H < 100) (hM : M < 100) (hS : S < 100) (hF : F ≤ 999999999)
-    (ho : ∀ x, o = some x → -6000 < x ∧ x < 6000)
+    (ho : ∀ x, o = some x → -840 ≤ x ∧ x ≤ 840)
     (hvd : validateDate year m d = true) (hvt : validateTime H M S F = true) :
     XmlDateTime.fromString e (XmlDateTime.str ⟨year, m, d, H, M, S, F, o⟩) =
       some ⟨year, m, d, H, M, S, F, o⟩ := by
